@@ -568,7 +568,7 @@ class Evaluator:
         it = self.eval_expr(gen.iter, st, fr)
         items = self.iter_items(it) if len(e.generators) == 1 else None
         sub = st.copy()
-        if items is not None and len(items) <= 64 and kind in ("list", "gen"):
+        if items is not None and len(items) <= 64 and kind in ("list", "gen", "dict"):
             out = []
             static = True
             for item in items:
@@ -576,13 +576,16 @@ class Evaluator:
                 conds = [self.eval_expr(c, sub, fr) for c in gen.ifs]
                 if all(isinstance(c, Const) for c in conds):
                     if all(c.v for c in conds):
-                        out.append(self.eval_expr(e.elt, sub, fr))
+                        if kind == "dict":
+                            out.append((self.eval_expr(e.key, sub, fr), self.eval_expr(e.value, sub, fr)))
+                        else:
+                            out.append(self.eval_expr(e.elt, sub, fr))
                 else:
                     static = False
                     break
             if static:
                 st.effects = list(sub.effects)  # effects of the unrolled element expressions, in order
-                return mk_list(out, e)
+                return mk_dict(out, e) if kind == "dict" else mk_list(out, e)
             sub = st.copy()
         base_e = len(st.effects)
         elem = App("elem", (it,), gen.iter)
@@ -668,7 +671,13 @@ class Evaluator:
         starkw = None
         for k in e.keywords:
             if k.arg is None:
-                starkw = self.eval_expr(k.value, st, fr)
+                sk = self.eval_expr(k.value, st, fr)
+                dp = dict_pairs(sk)
+                if dp is not None and all(isinstance(k_, Const) and isinstance(k_.v, str) for k_, _ in dp):
+                    for k_, v_ in dp:  # **{'a': x, 'b': y} is a=x, b=y
+                        kwargs[k_.v] = v_
+                else:
+                    starkw = sk
             else:
                 kwargs[k.arg] = self.eval_expr(k.value, st, fr)
 
